@@ -61,7 +61,7 @@ func filter(only bool, opt *Option, profile string) (string, error) {
 	if opt.IsInline() {
 		profile = strings.ReplaceAll(profile, opt.Raw, "")
 	} else {
-		regRemoveParagraph := regexp.MustCompile(`(?s)` + opt.Raw + `\n.*?\n\n`)
+		regRemoveParagraph := regexp.MustCompile(`(?s)` + regexp.QuoteMeta(opt.Raw) + `\n.*?\n\n`)
 		profile = regRemoveParagraph.ReplaceAllString(profile, "")
 	}
 	return profile, nil
